@@ -1125,7 +1125,7 @@ fn rand_doc(rng: &mut Rng, cfg: &Value) -> Document {
     // document holds the length
     let sids: Vec<(u32, u16)> = doc.objects.iter().filter(|(_, o)| matches!(o, Object::Stream(_)) && !bookkeeping(o)).map(|(id, _)| *id).collect();
     for sid in sids {
-        if rng.chance(1, 3) {
+        if rng.chance(1, 2) {
             let n = doc.objects[&sid].as_stream().map(|s| s.content.len()).unwrap_or(0) as i64;
             let lid = doc.add_object(Object::Integer(n));
             if let Some(Object::Stream(s)) = doc.objects.get_mut(&sid) {
